@@ -119,6 +119,18 @@ func bindOutcome(c *bindCase, st reflect.Type, binding bcl.Binding) string {
 	return fmt.Sprintf("panic=%q err=%v target=%#v", pan, err, cur())
 }
 
+// disturb makes calls that have nothing to do with the case under test, with all introspection options on and writers of their
+// own (C16: an outcome does not depend on calls made earlier in the same process)
+func disturb() {
+	defer func() { recover() }()
+	var junkOut, junkLog bytes.Buffer
+	opts := []bcl.Option{bcl.OptDisasm(true), bcl.OptTrace(true), bcl.OptStats(true), bcl.OptOutput(&junkOut), bcl.OptLogger(&junkLog)}
+	bcl.Interpret([]byte("var d = 1\ndef dist \"urb\" { f = d + 1 }\nprint d\nbind dist -> struct\n"), opts...)
+	var t struct{ F int }
+	bcl.Unmarshal([]byte("def dist { f = 2 }\nbind dist -> struct\n"), &t, opts...)
+	bcl.Parse([]byte("print )\n"), "disturb", opts...)
+}
+
 func replayDet(args []string) int {
 	op := parseOpts(args)
 	reps := op.int("reps", 12)
@@ -205,6 +217,7 @@ func replayDet(args []string) int {
 			}
 			if i == 0 {
 				first = o
+				disturb() // an unrelated call with every option set and other writers: what follows must not notice it
 				continue
 			}
 			if o != first {
